@@ -143,6 +143,11 @@ def run(tier, seed):
                 if impl_tab.get(c["fn"]) != len(c["args"]):
                     raise vlib.ToolError(f"arity of std.{c['fn']} differs: spec {len(c['args'])}, implementation {impl_tab.get(c['fn'])}")
                 src = f"std.{c['fn']}({', '.join(c['args'])})"
+                if len(inputs) % 2 == 1:
+                    # every other call also has its result consumed: a number that should not exist
+                    # (NaN, infinity) is harmless until it is ordered, sorted or printed
+                    src = (f"local r = {src}; if std.isNumber(r) then [r, r < 1, r >= r, std.sort([1, r, 0]), "
+                           f"std.max(r, 0), std.toString(r)] else r")
                 inputs.append(("std:" + c["fn"], {"k": "eval", "src": src, "max_stack": 200}))
     # ill-scoped and well-scoped programs of the static-analysis universe (spec/MC_Static.tla, shared with C09):
     # here only the outcome protocol is decided (a diagnosed error or a value, never a crash)
